@@ -210,7 +210,10 @@ namespace sim
     std::vector<alloc_call> allocs;   // allocate() calls of the op in flight
     unsigned                deallocs;
 
-    // --- violation (first one wins)
+    // --- violations of the step in flight (the first one decides minimisation; the others are
+    //     reported with it so that every property that owns one of them sees it)
+    struct extra_violation { std::string oracle, msg; std::uint32_t props; };
+    std::vector<extra_violation> also;
     bool          violated;
     std::string   v_oracle;
     std::string   v_msg;
@@ -264,19 +267,30 @@ namespace sim
   violate (const char *oracle, const char *fmt, ...)
   {
     state& g = G ();
-    if (g.violated)
-      return;
     char buf[512];
     va_list ap;
     va_start (ap, fmt);
     std::vsnprintf (buf, sizeof (buf), fmt, ap);
     va_end (ap);
+    std::uint32_t props = props_of_oracle (oracle) | g.ctx_props;
+    if (g.fired > 0)
+      props |= pbit (P06); // raised while unwinding from an injected fault
+    if (g.violated)
+    {
+      if (g.also.size () < 12)
+      {
+        state::extra_violation e;
+        e.oracle = oracle;
+        e.msg    = buf;
+        e.props  = props;
+        g.also.push_back (e);
+      }
+      return;
+    }
     g.violated = true;
     g.v_oracle = oracle;
     g.v_msg    = buf;
-    g.v_props  = props_of_oracle (oracle) | g.ctx_props;
-    if (g.fired > 0)
-      g.v_props |= pbit (P06); // raised while unwinding from an injected fault
+    g.v_props  = props;
   }
 
   inline void
